@@ -232,6 +232,8 @@ func c14Targets() []*load.Case {
 		"delete { default 3; }", "delete { units u; }", "delete { must \"1=1\"; }", "delete { unique \"x\"; }", "delete { default nope; }"}
 	contents := []string{"leaf al { type string; }", "container ac { }", "list ali { key k; leaf k { type string; } }", "leaf-list all { type string; }",
 		"choice ach { leaf acl { type string; } }", "case acs { leaf acl { type string; } }", "action aa;", "notification an;", "anydata aad;", "uses gx;",
+		"action ab { input { leaf i { type string; } } output { leaf o { type string; } } }", "notification anb { leaf n { type string; } }",
+		"container ac2 { action ab2 { input { leaf i { type string; } } } notification an2 { leaf n { type string; } } }",
 		"leaf al { type string; mandatory true; }", "leaf x { type string; }"}
 	refines := []string{"default x;", "default 1; default 2;", "mandatory true;", "config false;", "min-elements 1;", "max-elements 2;", "presence p;",
 		"description d;", "must \"1=1\";", "if-feature fx;", "reference r;"}
